@@ -165,10 +165,10 @@ fn backend<B: Backend>(opts: &Opts, rep: &mut Report) {
         }
         // --- randomness dimension: identical inputs, N times
         let n = match (kind, B::VER) {
-            (Wk::Seal, 1) => opts.size(3000, 50000),
-            (Wk::Seal, _) => opts.size(3000, 50000),
+            (Wk::Seal, 1) => opts.size(6000, 50000),
+            (Wk::Seal, _) => opts.size(10000, 100000),
             (k, _) if k.is_pw() => opts.size(300, 5000),
-            _ => opts.size(2000, 30000),
+            _ => opts.size(6000, 60000),
         };
         let mut rng = Rng::derive(opts.seed, &stream, 7_000_000 + kind as u64);
         let key_raw = gen_wrapped_key::<B>(kind, &mut rng);
